@@ -56,7 +56,7 @@ def jobs_for(tier):
     if tier != 'quick':
         add('S', 3, 'd.s3p', fmt='Zri'); add('S', 3, 'd.npd', fmt='Yri'); add('Z', 3, 'd.ts', fmt='Sri')
     # combinations the saver must refuse: cksave and save have to agree on them too
-    add('T', 2, 'd.s2p', expect='refuse'); add('A', 2, 'd.ts', expect='refuse'); add('S', 3, 'd.s2p'); add('S', 1, 'd.npd', fmt='Hri', expect='refuse')
+    add('T', 2, 'd.s2p', expect='refuse'); add('A', 2, 'd.ts', expect='refuse'); add('S', 1, 'd.npd', fmt='Hri', expect='refuse')
     add('S', 2, 'd.s2p', z0='perport', expect='refuse'); add('S', 2, 'd.ts', z0='complex', expect='refuse'); add('S', 2, 'd.s2p', z0='fz0', expect='refuse')
     add('ZIN', 2, 'd.npd', fmt='Sri', expect='refuse'); add('ZIN', 2, 'd.ts', expect='refuse'); add('S', 2, 'd.ts', fmt='Tri', expect='refuse')
     add('S', 2, 'd.npd', fmt='Sxy', expect='refuse'); add('S', 3, 'd.npd', fmt='Tri', expect='refuse')
@@ -123,7 +123,8 @@ def run_once(mod, job, choices, holder):
         rcf = icall('vnadata_set_format', [vdp, it.static_str(job['format'].encode())])
         if rcf != 0 and job['expect'] != 'refuse': res['sat'].append({'q': 'vnadata_set_format(%r) is accepted' % job['format']}); return res
         if rcf != 0: res['notes'].append('format refused by vnadata_set_format'); res['queries'] += 1; res['unsat'] += 1; return res
-    if job['prec'] == 'max':
+    numeric = job.get('cells', 'sym') == 'const'
+    if job['prec'] == 'max' or numeric:
         assert icall('vnadata_set_fprecision', [vdp, MAXP]) == 0 and icall('vnadata_set_dprecision', [vdp, MAXP]) == 0
     fname = job['file'].encode(); p = it.static_str(fname)
 
@@ -134,6 +135,23 @@ def run_once(mod, job, choices, holder):
             else: ex.append(e)
         if any(isinstance(e, Special) for e in ex):
             res['sat'].append({'q': q, 'detail': 'non-finite value'}); return False
+        if numeric:
+            # constant cells: the numbers in the file are real printf output (hex floats at maximum precision), so equality holds to
+            # rounding only: evaluated numerically (roots of constants by their approximations), tolerance 1e-10 - a numeric complement,
+            # counted separately from the z3 identities
+            res['numeric'] = res.get('numeric', 0) + 1; res['queries'] += 1
+            rv = it.__dict__.get('_root_vals', {})
+            worst = 0.0
+            for e in ex:
+                if e.isconst(): v = float(e.value())
+                else:
+                    vs = it._vars_of(e.z3num() / e.z3den())
+                    if not all(x.get_id() in rv for x in vs): res['unknown'].append({'q': q, 'why': 'symbolic value in a constant-cell job'}); return None
+                    r_ = z3.simplify(z3.substitute(e.z3num() / e.z3den(), [(x, z3.RealVal(rv[x.get_id()])) for x in vs]))
+                    v = float(r_.as_fraction()) if z3.is_rational_value(r_) else float('nan')
+                worst = max(worst, abs(v)) if v == v else float('inf')
+            if worst <= 1e-10: res['unsat'] += 1; return True
+            res['sat'].append({'q': q, 'detail': 'numeric difference %g' % worst}); return False
         st, mdl = irsym.check_zero(it, ex, timeout_ms=60000)
         res['queries'] += 1
         if st == 'unsat': res['unsat'] += 1; return True
